@@ -70,7 +70,8 @@ def _composites() -> typing.List[Entry]:
         ("C_delim", "uint8 pre\nInD.1.0 d\nuint8 z\n@sealed\n", "nested delimited composite (delimiter header)"),
         ("C_arrc", "In1.1.0[2] a\n@sealed\n", "fixed array of composites"),
         ("C_arrcv", "In2.1.0[<=2] a\n@sealed\n", "variable array of variable composites"),
-        ("C_arrd", "InD.1.0[<=2] a\n@sealed\n", "variable array of delimited composites"),
+        ("C_arrd", "InD.1.0[<=2] a\n@sealed\n", "variable array of delimited composites (thorough tier: ~1600 paths at L=20)"),
+        ("C_arrd1", "uint8 pre\nInD.1.0[<=1] a\n@sealed\n", "variable array (capacity 1) of delimited composites"),
         ("C_empty", "InE.1.0 e\nuint8 z\n@sealed\n", "nested empty type"),
         ("C_ext", "uint8 a\nuint16 b\n@extent 12 * 8\n", "top-level delimited with explicit extent"),
         ("C_void", "uint6 a\nvoid4\nuint6 b\n@sealed\n", "void crossing a byte boundary"),
@@ -96,17 +97,39 @@ def _services() -> typing.List[Entry]:
     ]
 
 
+def _metadata() -> typing.List[Entry]:
+    """fixed port-IDs at their boundaries (needs --allow-unregulated-fixed-port-id), constants of every kind and extreme magnitude"""
+    return [
+        ("0.PortZero", "uint8 a\n@sealed\n", "message with fixed port-ID 0 (lowest)"),
+        ("8191.PortMax", "uint8 a\n@extent 4 * 8\n", "message with fixed port-ID 8191 (highest)"),
+        ("4321.PortMid", "uint8[<=2] a\n@sealed\n", "message with fixed port-ID 4321"),
+        ("0.SvcZero", "uint8 a\n@sealed\n---\nuint8 r\n@sealed\n", "service with fixed port-ID 0"),
+        ("511.SvcMax", "uint8 a\n@sealed\n---\nuint8 r\n@extent 2 * 8\n", "service with fixed port-ID 511"),
+        ("K_int", "uint8 a\nuint64 U64MAX = 18446744073709551615\nint64 I64MIN = -9223372036854775808\nint64 I64MAX = 9223372036854775807\n"
+                  "uint8 U8 = 255\nint8 I8 = -128\nuint3 U3 = 7\nint2 I2 = -2\nbool BT = true\nbool BF = false\nuint8 CH = 'Z'\n@sealed\n",
+         "integer/bool constants at the extremes of their types"),
+        ("K_flt", "uint8 a\nfloat32 F32PI = 3.141592653589793238462643383279502884197169399375105820974944592307816406286\n"
+                  "float64 F64PI = 3.141592653589793238462643383279502884197169399375105820974944592307816406286\n"
+                  "float16 F16 = 65504.0\nfloat32 F32MAX = 340282346638528859811704183484516925440.0\nfloat32 F32TINY = 1.0e-45\n"
+                  "float64 F64MAX = 1.7976931348623157e308\nfloat64 F64TINY = 4.9e-324\nfloat32 THIRD = 1.0 / 3.0\nfloat64 NEG = -2.5e-3\n"
+                  "float16 F16S = 0.1\n@sealed\n",
+         "floating-point constants: irrational digits, extreme magnitudes, subnormals, rationals"),
+    ]
+
+
 def quick_names() -> typing.List[str]:
     """about 40 types for the quick tier (every feature family, fewer offsets/widths)"""
-    sel = [n for n, _, _ in _arrays() + _composites() + _unions() + _services()]
+    sel = [n for n, _, _ in _arrays() + _composites() + _unions() + _services() if n != "C_arrd"]
     pr = [n for n, _, _ in _prims()]
     sel += pr[::3]
     sel += ["W_u1", "W_u63", "W_i2", "W_i33"]
     return sel
 
 
-def all_entries(seed: int = 0, n_random: int = 0) -> typing.List[Entry]:
+def all_entries(seed: int = 0, n_random: int = 0, metadata: bool = False) -> typing.List[Entry]:
     out = _prims() + _wide_widths() + _arrays() + _composites() + _unions() + _services()
+    if metadata:
+        out += _metadata()
     rng = random.Random(seed)
     for i in range(n_random):
         out.append(_random_type(rng, i))
@@ -158,5 +181,5 @@ def write(root: pathlib.Path, entries: typing.List[Entry]) -> pathlib.Path:
     ns = root / "vt"
     ns.mkdir(parents=True, exist_ok=True)
     for name, text, _ in entries:
-        (ns / f"{name}.1.0.dsdl").write_text(text)
+        (ns / f"{name}.1.0.dsdl").write_text(text)       # a leading "<port-id>." in the name is the fixed port-ID
     return ns
